@@ -362,7 +362,8 @@ def gen_history(r, prog, n_ops, weights=None, sane=0.8, hand_n=0, slots=3, olds=
                 ops.append(["set", b, r.choice(kgen.SANE[tb])])
             if en and r.random() < 0.6:
                 ops.append(["set", en, "y"])
-            ops.append(["read", [b], 15])
+            # a member is observed through its choice as well (the selection is cached on the choice)
+            ops.append(["read", [b] + ([group_of[b][0]] if b in group_of else []), 15])
             t = tab[a]["type"]
             k2 = r.random()
             if k2 < 0.75:
@@ -384,6 +385,8 @@ def gen_history(r, prog, n_ops, weights=None, sane=0.8, hand_n=0, slots=3, olds=
             if r.random() < 0.6:
                 ops.append(["set", r.choice(sibs), "y"])
             ops.append(["set", b, "y"])
+            if r.random() < 0.5:
+                ops.append(["read", [b, gi], 15])  # the selection is cached before the gate moves
             flip()
             if r.random() < 0.3:
                 ops.append(["read", [b, gi], 15])
@@ -398,7 +401,8 @@ def gen_history(r, prog, n_ops, weights=None, sane=0.8, hand_n=0, slots=3, olds=
                 ops.append(["cunset", gi])
             elif k2 < 0.9:
                 ops.append(["unset", r.choice(g)])
-            flip()
+            if r.random() < 0.6:
+                flip()  # (otherwise the history goes on - or ends - with the member hidden / shown as the first flip left it)
         elif kind == "set":
             pool = members if (members and r.random() < member_bias) else (hot if r.random() < 0.5 else names)
             nm = r.choice(pool)
